@@ -7,7 +7,7 @@ LEVEL = "model_checking"
 
 def run(rep, tier):
     wd = common.workdir("C11")
-    for name in ("c09", "c08", "c07"):
+    for name in ("c09", "c08", "c07", "wide"):
         events, bad = halpipe.run_corpus(rep, wd, name, tier)
         nb = halpipe.report(rep, events, bad, {"fill"}, name)
         log("[C11] corpus %s: %d events, %d fill-dependent or frame-violating" % (name, len(events), nb))
